@@ -456,18 +456,30 @@ def reset_ranges(ctx, fx):
             else:
                 ctx.broken("SyncType enumerators not found in reset_bitset")
                 break
-        table = {("syncBroadcast", 5, 9): [["0", "(numMasters - 1)"]],
-                 ("syncReduce", 5, 9): [["numMasters", "(this->userGraph.size() - 1)"]],
+        # decided on values, not spellings: the function is walked under concrete (sync type, number of masters, number of
+        # proxies); locals are looked through (the two sizes do not change inside the function) and the arguments of every
+        # reachable reset call are evaluated
+        table = {("syncBroadcast", 5, 9): [(0, 4)],
+                 ("syncReduce", 5, 9): [(5, 8)],
                  ("syncReduce", 5, 5): [],
+                 ("syncBroadcast", 5, 5): [(0, 4)],
                  ("syncBroadcast", 0, 9): [],
-                 ("syncReduce", 0, 9): [["0", "(this->userGraph.size() - 1)"]],
-                 ("syncReduce", 0, 0): []}
+                 ("syncReduce", 0, 9): [(0, 8)],
+                 ("syncReduce", 0, 0): [],
+                 ("syncBroadcast", 0, 0): []}
+        al = dict(fn.defs(), **fn.aliases())
         for (st, masters, room), want in table.items():
-            env = {"syncType": enum[st], "numMasters": masters, "this->userGraph.size()": room}
-            calls = reachable_calls(fn, env, {"bitset_reset_range"})
-            got = [[S(x) for x in e.get("a", [])] for _, e in calls]
-            if got != want:
-                det.append("%s, masters=%d, mirrors=%d: resets %s, expected %s" % (st, masters, room, got, want))
+            env = {"syncType": enum[st], "this->userGraph.numMasters()": masters, "this->userGraph.size()": room}
+            eok = R.edges_under(fn, env, defs=True)
+            calls = []
+            fn.search([fn.entry_state()], edge_ok=eok, through=lambda pos, e: calls.append(e) if (
+                e.get("k") == "call" and (e.get("name") == "bitset_reset_range" or (not e.get("name") and e.get("rp") == "bitset_reset_range"))) else None)
+            got = []
+            for e in calls:
+                vals = tuple(R.decide(x, env, al) for x in e.get("a", []))
+                got.append(vals if None not in vals else tuple(S(x) for x in e.get("a", [])))
+            if sorted(got, key=str) != sorted(want, key=str):
+                det.append("%s, masters=%d, proxies=%d: resets %s, expected %s" % (st, masters, room, got, want))
         ctx.ob("C18.bitset.reset-ranges", "reset_bitset", not det, "; ".join(det[:3]), fn.loc(), "ranges", fnkey=f["key"])
 
 
